@@ -90,7 +90,7 @@ PROPS['C04'] = dict(
     level_text=('Deductive for EpsilonNFA.is_empty (worklist reachability, all automata, all orders; Lean lemma empty gives "no word accepted") and EpsilonNFA.is_deterministic '
                 '(postcondition is the property wording). is_acyclic and get_accepted_words (order-dependent pruning, generator, termination) are bounded only. Mixed => other.'),
     level_note='Trusted: VC generator, z3, Lean+Mathlib, closure-induction schema instances, value assumptions; termination of get_accepted_words on finite languages is only observed on the bounded scope with a step budget.',
-    pyvc=fa('ENFA.is_empty', 'ENFA.is_deterministic', 'NFA.is_deterministic', 'DFA.is_deterministic', 'ENFA.eclose') + [('contracts.fa_concrete', 'NTF.is_deterministic')],
+    pyvc=fa('ENFA.is_empty', 'ENFA.is_deterministic', 'NFA.is_deterministic', 'DFA.is_deterministic', 'ENFA.eclose', 'ENFA._get_next_states_from', 'ENFA._get_reachable_states', 'ENFA._get_states_leading_to_final') + [('contracts.fa_concrete', 'NTF.is_deterministic')],
     lean=['bridge/empty.lean'],
     bounded='bounded.c04', replayer='bounded.replay_fa',
     bounded_only=['FiniteAutomaton.is_acyclic', 'FiniteAutomaton.get_accepted_words', '_get_states_leading_to_final', 'NFA.is_deterministic', 'DFA.is_deterministic'],
